@@ -27,6 +27,10 @@ class _Timeout(Exception):
     pass
 
 
+class _Skipped(Exception):
+    pass
+
+
 def _alarm(signum, frame):
     raise _Timeout()
 
@@ -34,10 +38,21 @@ def _alarm(signum, frame):
 signal.signal(signal.SIGALRM, _alarm)
 
 
-def guarded(f, seconds=2.0):
+TIMEOUTS = [0]
+MAX_TIMEOUTS = 8
+
+
+def guarded(f, seconds=1.0):
+    """run f under an alarm; after MAX_TIMEOUTS timeouts the remaining guarded calls are not run at all
+    (reported as "Skipped") so that a looping implementation cannot stall the check"""
+    if TIMEOUTS[0] >= MAX_TIMEOUTS:
+        raise _Skipped()
     signal.setitimer(signal.ITIMER_REAL, seconds)
     try:
         return f()
+    except _Timeout:
+        TIMEOUTS[0] += 1
+        raise
     finally:
         signal.setitimer(signal.ITIMER_REAL, 0)
 
@@ -45,6 +60,8 @@ def guarded(f, seconds=2.0):
 def exc_name(e):
     if isinstance(e, _Timeout):
         return "Timeout"
+    if isinstance(e, _Skipped):
+        return "Skipped"
     return type(e).__name__
 
 
